@@ -6,6 +6,8 @@ import (
 	"fmt"
 	"os"
 	"sort"
+
+	"github.com/TarsCloud/TarsGo/tars/util/rogger"
 )
 
 var cmds = map[string]func(args []string) error{}
@@ -21,6 +23,9 @@ func main() {
 		sort.Strings(names)
 		fmt.Fprintln(os.Stderr, "usage: vdrive <subcommand> [flags]; subcommands:", names)
 		os.Exit(2)
+	}
+	if os.Getenv("VERIF_LOG") == "" {
+		rogger.SetLevel(rogger.OFF) // the framework logs to the console by default
 	}
 	f, ok := cmds[os.Args[1]]
 	if !ok {
